@@ -63,7 +63,7 @@ func DumpSample(s *profile.Sample) Term {
 	var locs []Term
 	for _, l := range s.Location {
 		if l == nil {
-			locs = append(locs, Z(0))
+			locs = append(locs, Z(-1)) // nil pointer (only in unchecked ParseUncompressed results)
 		} else {
 			locs = append(locs, ZU(l.ID))
 		}
@@ -272,6 +272,9 @@ func GenProfile(r *Rng, k Knobs) *profile.Profile {
 		p.Location = append(p.Location, l)
 	}
 	ns := r.Intn(k.MaxSamples + 1)
+	if nst == 0 {
+		ns = 0 // samples without sample types are invalid
+	}
 	labKeys := []string{"k", "key", "a", "b", "bytes", "request"}
 	for i := 0; i < ns; i++ {
 		s := &profile.Sample{}
